@@ -436,4 +436,26 @@ theorem a_program_never_loses_a_tracked_count (fuel : Nat) (fn : FuncDecl) (args
 /-- the empty table a shot starts with is keyed -/
 example : TrNodup ([] : List (String × String × Nat)) := by simp [TrNodup]
 
+/-- the table a whole run hands back — whatever the program, the draws, the switches and the fuel, normal end or error — has one
+row per (variable, outcome): the aggregate over shots adds rows that are well defined -/
+theorem a_run_ends_with_a_keyed_table (prog : Program) (draws : List Float) (e l : Bool) (fuel : Nat) :
+    TrNodup (execute prog draws e l fuel).tracked := by
+  have h0 : TrNodup ([] : List (String × String × Nat)) := by simp [TrNodup]
+  unfold execute
+  dsimp only
+  split
+  · exact h0
+  · split
+    · rename_i st hrun
+      split at hrun
+      · rename_i fn _
+        obtain ⟨v, st1, h1, h2⟩ := run_bind_ok hrun
+        rw [run_pure] at h2
+        cases h2
+        exact (a_program_never_loses_a_tracked_count fuel fn [] _ _ v h0 h1).1
+      · rw [run_pure] at hrun
+        cases hrun
+        exact h0
+    · exact h0
+
 end BlochVerif.Props.C17
